@@ -138,6 +138,7 @@ type State struct {
 	events  []string
 	collect *[]candCheck // houdini: collected candidate checks at back edges
 	steps   int
+	hashEmpty map[string]bool // hashers known to be in their initial (empty) state on this path
 	stop    *stopCtx
 	init    map[string]string // first symbol of every heap (its value at unit entry)
 	unitOld map[string]string // snapshot for old() in the unit's own contract: empty = initial symbols
@@ -206,8 +207,13 @@ func typeInvQF(term string, t types.Type) string {
 	if b, ok := t.Underlying().(*types.Basic); ok && b.Info()&types.IsString != 0 {
 		return fmt.Sprintf("(and (<= 0 %s) (<= %s 1099511627776))", strLen(term), strLen(term))
 	}
-	if _, ok := t.Underlying().(*types.Struct); ok {
-		return ""
+	if u, ok := t.Underlying().(*types.Struct); ok {
+		var cs []string
+		name := reg.structSort(u, typeHint(t))
+		for i := 0; i < u.NumFields(); i++ {
+			cs = append(cs, typeInvQF(fmt.Sprintf("(%s_f%d %s)", name, i, term), u.Field(i).Type()))
+		}
+		return and(cs...)
 	}
 	return typeInv(term, t)
 }
@@ -257,7 +263,7 @@ func (st *State) heap(name, sort string) string {
 	st.heaps[name] = sym
 	st.hsort[name] = sort
 	st.init[name] = sym
-	st.heapTyping(name, sym)
+	st.heapTypingAt(name, sym, st.init["$alloc"])
 	return sym
 }
 
@@ -294,6 +300,8 @@ func (st *State) havocHeap(name string) {
 
 // heapValType remembers the Go type of the values stored in a heap (for the well-typed-heap axioms).
 var heapValType = map[string]types.Type{}
+var heapKeySort = map[string]string{}
+var heapKeyType = map[string]types.Type{}
 
 func fieldHeapName(stt types.Type, st *types.Struct, i int) (string, string) {
 	sname := reg.structSort(st, typeHint(stt))
@@ -304,18 +312,56 @@ func fieldHeapName(stt types.Type, st *types.Struct, i int) (string, string) {
 
 // heapTyping: every value stored in a heap satisfies the (quantifier-free) invariant of its Go type.
 func (st *State) heapTyping(name, sym string) {
+	st.heapTypingAt(name, sym, "")
+}
+
+// refBound: references stored in a heap were allocated before the heap value came into being (heap closedness).
+func refBound(term string, t types.Type, frontier string) string {
+	if frontier == "" {
+		return ""
+	}
+	switch t.Underlying().(type) {
+	case *types.Pointer, *types.Map, *types.Chan:
+		return fmt.Sprintf("(<= %s %s)", term, frontier)
+	case *types.Slice:
+		return fmt.Sprintf("(<= %s %s)", slRef(term), frontier)
+	}
+	return ""
+}
+
+func (st *State) heapTypingAt(name, sym, frontier string) {
+	if strings.HasPrefix(name, "MD!") {
+		// keys present in a map are values of the key type
+		if kt, ok := heapKeyType[name]; ok {
+			inv := typeInvQF("k!t", kt)
+			if inv != "" && inv != "true" {
+				st.pc = append(st.pc, fmt.Sprintf("(forall ((r!t Int) (k!t %s)) (! (=> (select (select %s r!t) k!t) %s) :pattern ((select (select %s r!t) k!t))))", sortOf(kt), sym, inv, sym))
+			}
+		}
+		return
+	}
 	t, ok := heapValType[name]
 	if !ok || !needsInv(t) {
 		return
 	}
+	if frontier == "" {
+		if f, ok := st.heaps["$alloc"]; ok {
+			frontier = f
+		}
+	}
 	switch {
+	case strings.HasPrefix(name, "MV!"):
+		inv := and(typeInvQF("(select (select "+sym+" r!t) k!t)", t), refBound("(select (select "+sym+" r!t) k!t)", t, frontier))
+		if inv != "" && inv != "true" {
+			st.pc = append(st.pc, fmt.Sprintf("(forall ((r!t Int) (k!t %s)) (! %s :pattern ((select (select %s r!t) k!t))))", heapKeySort[name], inv, sym))
+		}
 	case strings.HasPrefix(name, "E!"):
-		inv := typeInvQF("(select (select "+sym+" r!t) i!t)", t)
+		inv := and(typeInvQF("(select (select "+sym+" r!t) i!t)", t), refBound("(select (select "+sym+" r!t) i!t)", t, frontier))
 		if inv != "" && inv != "true" {
 			st.pc = append(st.pc, fmt.Sprintf("(forall ((r!t Int) (i!t Int)) (! %s :pattern ((select (select %s r!t) i!t))))", inv, sym))
 		}
 	case strings.HasPrefix(name, "F!"), strings.HasPrefix(name, "C!"):
-		inv := typeInvQF("(select "+sym+" r!t)", t)
+		inv := and(typeInvQF("(select "+sym+" r!t)", t), refBound("(select "+sym+" r!t)", t, frontier))
 		if inv != "" && inv != "true" {
 			st.pc = append(st.pc, fmt.Sprintf("(forall ((r!t Int)) (! %s :pattern ((select %s r!t))))", inv, sym))
 		}
@@ -376,6 +422,9 @@ func cellHeapName(t types.Type) (string, string) {
 func mapHeapNames(m *types.Map) (dom, val, dsort, vsort, ksort string) {
 	ks, vs := sortOf(m.Key()), sortOf(m.Elem())
 	k := tkey(m.Key()) + "!" + tkey(m.Elem())
+	heapKeyType["MD!"+k] = m.Key()
+	heapValType["MV!"+k] = m.Elem()
+	heapKeySort["MV!"+k] = ks
 	return "MD!" + k, "MV!" + k, fmt.Sprintf("(Array Int (Array %s Bool))", ks), fmt.Sprintf("(Array Int (Array %s %s))", ks, vs), ks
 }
 
@@ -623,6 +672,12 @@ func (st *State) clone() *State {
 	n.cellVal = make(map[string]Val, len(st.cellVal))
 	for k, v := range st.cellVal {
 		n.cellVal[k] = v
+	}
+	if st.hashEmpty != nil {
+		n.hashEmpty = make(map[string]bool, len(st.hashEmpty))
+		for k, v := range st.hashEmpty {
+			n.hashEmpty[k] = v
+		}
 	}
 	n.init = make(map[string]string, len(st.init))
 	for k, v := range st.init {
